@@ -10,6 +10,7 @@ Record case := {
   k_msg : msg nat;                 (* fields as tags; m_from = Some 1 means "the receiver's own peer ID" *)
   k_oracle : oracle;
   k_own : bool;                    (* produced by a correct node's own Publish (must be accepted) *)
+  k_local : bool;                  (* judged on the publishing node itself (Topic.Publish -> ValidateLocal), not received from a peer *)
   o_delivered : bool;              (* observed: delivered to the subscription (and hence forwarded) *)
   o_reason : nat                   (* observed RejectMessage reason: 0 none, 1 missing signature, 2 unexpected signature,
                                       3 unexpected auth info, 4 self origin, 5 invalid signature, 9 other *)
@@ -24,7 +25,7 @@ Definition model_accept (c : case) : outcome :=
          (fun _ _ => o_key_matches o)
          (fun _ _ _ => o_verifies o)
          (fun _ => 0)
-         (k_policy c) (k_anon c) 1 false (k_msg c).
+         (k_policy c) (k_anon c) 1 (k_local c) (k_msg c).
 
 Definition reason_code (r : reason) : nat :=
   match r with RMissingSignature => 1 | RUnexpectedSignature => 2 | RUnexpectedAuthInfo => 3 | RSelfOrigin => 4 | RInvalidSignature => 5 end.
@@ -46,7 +47,7 @@ Definition monitor (c : case) : nat :=
   else if o_delivered c && (match k_policy c with StrictNoSign => true | _ => false end) && present (m_sig m) then 2
   else if o_delivered c && (match k_policy c with StrictNoSign => true | _ => false end) && k_anon c
           && (present (m_seqno m) || present (m_from m) || present (m_key m)) then 3
-  else if o_delivered c && (match m_from m with Some 1 => true | _ => false end) then 4
+  else if o_delivered c && negb (k_local c) && (match m_from m with Some 1 => true | _ => false end) then 4
   else if k_own c && negb (o_delivered c) then 5
   else 0.
 
